@@ -522,6 +522,7 @@ type codeOpts struct {
 	longDoc    bool
 	specialDoc int  // documentation holding 1 = " or \ (avoid set: doc-escape), 2 = _ (avoid set: doc-underscore)
 	caseKeys   bool // a case key list that starts with a symbol the printer has a layout for (avoid set: case-keys)
+	fnForm     bool // a (function name) / #'name form in the body (avoid set: function-form)
 	stringBody int  // the only body form is a string: 1 = short and plain, 2 = one the printer's documentation layout changes (avoid set: string-body)
 }
 
@@ -572,6 +573,18 @@ func genFunction(r *rand.Rand, name string, depth int, o codeOpts) (fd fnDef, he
 		if o.caseKeys {
 			ll, probes = "(p0)", []string{"'let", "'defun", "'lambda", "'function", "'block", "'a", "'zz", "'defmethod", "'quote"}
 			body = []string{fmt.Sprintf("(case p0 (%s %d) ((a b) %d) (%s %d) (t %d))", fw.Pick(r, layoutKeys), r.IntN(9), r.IntN(9), fw.Pick(r, layoutKeys), r.IntN(9), r.IntN(9))}
+			if doc != "" {
+				body = append([]string{litString(doc)}, body...)
+			}
+			break
+		}
+		if o.fnForm {
+			// functions passed by name and as a sharp-quoted lambda expression
+			ll, probes = "(p0)", []string{"1", "5", "-2"}
+			body = []string{fmt.Sprintf("(list (mapcar %s (list p0 %d)) (funcall %s p0) (apply %s (list p0 %d)))",
+				fw.Pick(r, []string{"#'1+", "(function 1-)", "#'abs"}), r.IntN(9),
+				fw.Pick(r, []string{"#'(lambda (v) (* v 2))", "(function (lambda (v) (+ v 1)))", "#'1-"}),
+				fw.Pick(r, []string{"#'+", "(function max)", "#'list"}), r.IntN(9))}
 			if doc != "" {
 				body = append([]string{litString(doc)}, body...)
 			}
